@@ -1,6 +1,7 @@
 """C17 - method-form and function-form queries are interchangeable."""
-from vlib import chrun, report
-from vlib.harness import base
+from vlib import chrun, report, tvrun
+from vlib.harness import base, tvbase
+from vlib.skel import sources
 
 PROP = "C17"
 
@@ -13,23 +14,36 @@ def s_jobs(tier):
                             "and absence of remaining method-form operator calls")]
 
 
+def t_units(tier):
+    N = 2 if tier == "quick" else 3
+    us, n = tvbase.source_units(sources.FORMS, ("x", "y"), "fnform", N, "forms-family", nchunks=16, rtypes=sources.FORMS_RTYPES)
+    mp = 9 if tier == "quick" else 11
+    for form in ("meth", "mix"):
+        for a in range(3):
+            us.append(dict(kind="grammar", form=form, feats=["calllam", "first", "tuple", "dict", "count", "method", "nested", "comp"], stages=2, depth=2, maxpicks=mp, fixed=[a],
+                           schemes=["reuse"], transformer="fnform", N=N))
+    for i in range(12 if tier == "quick" else 48):
+        us.append(dict(kind="random", seed=report.seed() * 100 + i, count=150 if tier == "quick" else 800, form=["mix", "meth"][i % 2], feats=None,
+                       stages=2 + i % 2, depth=3, maxpicks=24, scheme="reuse", transformer="fnform", N=N))
+    return us, n
+
+
 def run(tier):
-    r = report.Run(PROP, tier, "other")
+    r = report.Run(PROP, tier, "translation_validation")
     r.assumptions += base.S_ASSUME
     so = chrun.run_jobs(s_jobs(tier))
     chrun.fold_into(r, so)
-    base.finish_s(r, so,
-                  rule="one evaluation = one CrossHair execution path; non-trivial = reached the call into func_adl",
-                  explanation="bounded symbolic execution (CrossHair/z3) of change_extension_functions_to_calls with two fully symbolic "
-                              "attribute names; each partition must be confirmed over all paths")
-    r.coverage["functions_executed_symbolically"] = ["func_adl.ast.func_adl_ast_utils.change_extension_functions_to_calls", "transform_calls.visit_Call"]
-    r.coverage["bounds"] = {"name_len": 12, "extra_args": [0, 2], "shapes": 6}
+    base.finish_s(r, so, rule=base.S_RULE,
+                  explanation="S part: bounded symbolic execution of change_extension_functions_to_calls with two fully symbolic attribute names (structure, selectivity, idempotence)")
+    r.coverage["bounds_s"] = {"name_len": 12, "extra_args": [0, 2], "shapes": 6}
+    us, n = t_units(tier)
+    res = tvrun.run_units(us)
+    tvrun.fold_into(r, res, "change_extension_functions_to_calls on %d mixed-form family instances (with non-operator look-alike methods) + method/mixed-form grammar and random programs" % n)
+    tvbase.finish_t(r, tier, ["func_adl.ast.func_adl_ast_utils.change_extension_functions_to_calls"], {"N_collection_length": 2 if tier == "quick" else 3})
     return r.finish()
 
 
 def replay(payload):
-    rp = chrun.replay_native(payload["harness"], payload["fn"], payload["argstr"])
-    print(rp)
-    if "raised" in rp or "error" in rp:
-        return 3
-    return 1 if rp.get("returned") else 0
+    if payload.get("engine") == "T":
+        return tvrun.replay_payload(payload)
+    return base.s_replay(payload)
